@@ -158,7 +158,7 @@ func (rep *Report) takeCover(def *propDef, st *CoverStats, cats []*cat.Catalog, 
 				if !done {
 					if ml, err := run.ParseModelLine(ex.Line); err == nil {
 						res := run.Replay(cats[ex.Ci-1], ml, run.ReplayOpts{Keep: true})
-						ok, _ = vetFreeOrder(cats[ex.Ci-1], ml.Opt, res.Observed)
+						ok, _ = vetFreeOrder(def, cats[ex.Ci-1], ml.Opt, res.Observed)
 					}
 					vetted[ex.Line] = ok
 				}
@@ -212,7 +212,7 @@ func (rep *Report) takeTrace(def *propDef, st *TraceStats, cfg TraceSpecCfg, err
 	for _, ex := range st.Examples {
 		if def.claims(ex.Div.Kind, ex.Div.Detail) {
 			if orderExplains(ex.Div.Kind) && ex.Rec != nil && ex.Rec.Variant == "" {
-				if ok, _ := vetFreeOrder(ex.Rec.Cat, ex.Rec.Opt, ex.Rec.Ops); ok {
+				if ok, _ := vetFreeOrder(def, ex.Rec.Cat, ex.Rec.Opt, ex.Rec.Ops); ok {
 					rep.note("order-tolerated."+ex.Div.Kind, ex.Div.Detail)
 					continue
 				}
@@ -560,7 +560,7 @@ func replayMain(args []string) int {
 			}
 		}
 		if hit && orderExplains(f.Kind) {
-			if ok, _ := vetFreeOrder(f.Catalog, ml.Opt, res.Observed); ok {
+			if ok, _ := vetFreeOrder(def, f.Catalog, ml.Opt, res.Observed); ok {
 				fmt.Println("the observed execution is allowed by the specification when independent parameters are built in another order: not a violation")
 				return 0
 			}
@@ -588,7 +588,7 @@ func replayMain(args []string) int {
 			mark := " "
 			if def.claims(ex.Div.Kind, ex.Div.Detail) {
 				if orderExplains(ex.Div.Kind) && ex.Rec != nil && ex.Rec.Variant == "" {
-					if ok, _ := vetFreeOrder(ex.Rec.Cat, ex.Rec.Opt, ex.Rec.Ops); ok {
+					if ok, _ := vetFreeOrder(def, ex.Rec.Cat, ex.Rec.Opt, ex.Rec.Ops); ok {
 						fmt.Printf("~ %s op=%d: %s (allowed under another build order)\n", ex.Div.Kind, ex.Div.Op, ex.Div.Detail)
 						continue
 					}
